@@ -323,6 +323,32 @@ func TestC10(t *testing.T) {
 		if v := c10Judge(c, res); v != "" {
 			rt.Fatalf("C10 violated by %v: %s", c, v)
 		}
+		// a slope that is a weight of a Model is one tensor object serving inputs of many shapes:
+		// after it has served an input with one more (or one fewer) leading axis it must be
+		// unchanged and the case must be answered as before
+		if c.op == "PRelu" && c.valid && res.ok() && len(c.x.Shape()) >= 1 && rapid.IntRange(0, 2).Draw(rt, "slopeObjectServedAnotherShape") == 0 {
+			otherShape := append([]int{rapid.IntRange(1, 3).Draw(rt, "extraLeading")}, c.x.Shape()...)
+			if len(c.slope.Shape()) < len(c.x.Shape()) && len(c.x.Shape()) >= 2 && rapid.Bool().Draw(rt, "dropLeading") {
+				otherShape = cloneInts(c.x.Shape()[1:])
+			}
+			if len(otherShape) <= 5 && prod(otherShape) <= 20000 {
+				slopeObj := cloneT(c.slope)
+				before := snap(slopeObj)
+				other := rangeSpecialT(c.dt, otherShape, 3)
+				first := runOp("PRelu", node, []tensor.Tensor{other, slopeObj})
+				second := runOp("PRelu", node, []tensor.Tensor{cloneT(c.x), slopeObj})
+				ev.Class("C10", "prelu-slope-object-served-another-input-shape")
+				if first.panicked {
+					rt.Fatalf("C10 violated by %v: PRelu of an input of shape %v with the same slope panics: %v", c, otherShape, first.panicVal)
+				}
+				if d := before.diff(snap(slopeObj)); d != "" {
+					rt.Fatalf("C10 violated by %v: the slope tensor was modified: %s", c, d)
+				}
+				if v := c10Judge(c, second); v != "" {
+					rt.Fatalf("C10 violated by %v after the same slope tensor object served an input of shape %v: %s", c, otherShape, v)
+				}
+			}
+		}
 		if rapid.IntRange(0, 4).Draw(rt, "modelLevel") == 0 {
 			ins2 := []tensor.Tensor{cloneT(c.x)}
 			if c.op == "PRelu" {
